@@ -161,6 +161,7 @@ class ElemOp:
         return st.fixed_dictionaries({
             "dom": domain_strategy(tier, max2=5, max3=3),
             "kind": st.sampled_from(["general", "general", "strain", "strain_novoigt", "stress", "average"]),
+            "cplx_input": st.sampled_from([False, False, True]),   # complex nodal vector (harmonic response)
             "int_input": st.sampled_from([False, False, False, True]),   # integer-typed input state (np.int64)
             "ndof": st.integers(1, 3), "shape": st.sampled_from(["m", "pm", "pqm", "node", "pnode"]),
             "plane": st.sampled_from(["strain", "stress"]),
@@ -189,6 +190,9 @@ class ElemOp:
         else:
             u = sig(rnd(rng, (dom.nnodes * ndof,)), "v")
             mod = pym.ElementAverage(u, sig(None, "ve"), dom)
+        if o.get("cplx_input") and not o.get("int_input"):
+            u.state = rnd(rng, np.shape(u.state), True)
+            lab.append("cplx_input")
         vdir = like(rng, u.state)
         if o.get("int_input"):
             u.state = rng.integers(-3, 4, np.shape(u.state)).astype(np.int64)
@@ -618,7 +622,7 @@ class LinSolveR:
             "kind": st.sampled_from(MATRIX_KINDS + ["fe_bc", "fe_bc"]), "n": st.integers(1, 8), "cplx": st.booleans(),
             "sparse": st.sampled_from([None, "csc", "csr"]), "density": st.sampled_from([1.0, 0.6, 0.3]),
             "rhs": st.sampled_from(RHS_SHAPES), "rhs_cplx": st.booleans(), "dep": st.booleans(),
-            "hint": st.sampled_from([None, None, "true"]), "lda": st.booleans(),
+            "hint": st.sampled_from([None, None, "true", "herm_only", "sym_only"]), "lda": st.booleans(),
             "solver": st.sampled_from([None, None, None, "lu", "qr", "ldl", "cg"]), "forder": st.booleans(),
         })
 
@@ -670,6 +674,12 @@ class LinSolveR:
             kw["hermitian"] = bool(herm)
             kw["symmetric"] = bool(symm)
             lab.append("hints")
+        elif o["hint"] == "herm_only":      # only one of the two (truthful) flags is given, the other is left to LinSolve
+            kw["hermitian"] = bool(herm)
+            lab.append("hint:hermitian_only")
+        elif o["hint"] == "sym_only":
+            kw["symmetric"] = bool(symm)
+            lab.append("hint:symmetric_only")
         sol = o["solver"]
         if sol is not None:
             S = pym.solvers
